@@ -214,6 +214,25 @@ fn reentrant_insert(v: &Mutex<Vec<(String, String)>>, fillers: usize) {
     check("LocalAssetCache", l.as_any_cache(), fillers, v);
 }
 
+/// ids are opaque: an id with a leading / trailing separator is its own key, found again under
+/// exactly that spelling, on every front-end
+fn odd_ids(v: &Mutex<Vec<(String, String)>>) {
+    fn check<'a>(label: &str, any: assets_manager::AnyCache<'a>, v: &Mutex<Vec<(String, String)>>) {
+        for (i, id) in ["k.", ".k", "k", "k..", "a.b.", ""].iter().enumerate() {
+            let h = any.get_or_insert::<SVal>(id, SVal(V::new(i as i64, "odd"))) as *const _ as usize;
+            let again = any.get_cached::<SVal>(id).map(|h| h as *const _ as usize);
+            let val = any.get_cached::<SVal>(id).map(|h| h.read().0.n);
+            if !any.contains::<SVal>(id) || again != Some(h) || val != Some(i as i64) {
+                violation(v, "presence-flipped", format!("{label}: get_or_insert({id:?}) = {h:#x} holding {i}; then contains = {}, get_cached = {again:x?} holding {val:?}", any.contains::<SVal>(id)));
+            }
+        }
+    }
+    let c = AssetCache::without_hot_reloading(Mem::new(false));
+    check("AssetCache", c.as_any_cache(), v);
+    let l = assets_manager::LocalAssetCache::with_source(Mem::new(false));
+    check("LocalAssetCache", l.as_any_cache(), v);
+}
+
 pub fn run(a: &Args) {
     trace_enable(false);
     let mut rng = Rng::new(a.seed);
@@ -249,6 +268,8 @@ pub fn run(a: &Args) {
         reentrant_insert(&v, fillers);
         evals += 2;
     }
+    odd_ids(&v);
+    evals += 2;
     samples.push("{\"kind\": \"loader registers a placeholder under its own key (AssetCache, LocalAssetCache)\"}".to_string());
     let viol = v.into_inner().unwrap();
     if !viol.is_empty() {
